@@ -1012,6 +1012,21 @@ func (g *mGen) malformed(d *mDump) *mCmd {
 	}
 }
 
+// apply one command to a replica; returns result line, dump, and whether the code panicked
+func mApply(rep *mReplica, c *mCmd, idx uint64) (res interface{}, panicked string) {
+	defer func() {
+		if e := recover(); e != nil {
+			panicked = fmt.Sprint(e)
+		}
+	}()
+	res = rep.h.Apply(c.entry(idx))
+	return
+}
+
+func mObs(res []int64, d *mDump) []int64 {
+	return append(append([]int64{}, res...), d.ints()...)
+}
+
 // ---------------------------------------------------------------- misc
 
 func mFingerprint(kinds []string) string {
